@@ -36,7 +36,7 @@ def make_gen(g):
 def pack(res):
     """hashable, bit-exact image of a call outcome"""
     if isinstance(res, Exception):
-        return ('raise', type(res).__name__)
+        return ('raise', type(res).__name__, str(res)[:80])
     val, info = res
     out = [('value', np.asarray(val).dtype.str, np.asarray(val).shape, np.asarray(val).tobytes())]
     for name in ('f_value', 'error_estimate', 'final_step', 'index'):
@@ -227,6 +227,9 @@ def run(tier, rep):
     refs.update(fresh_map(reference_nested, nsigs))
     # a second, independent fresh evaluation of every reference (the reference itself must be reproducible)
     refs2 = dict(fresh_map(reference, list(reversed(sigs))))
+    for s, pk in refs.items():
+        if pk[0] == 'raise' and pk[1] != 'ValueError':
+            rep.violation('reference-raises', dict(sig=repr(s), error=list(pk)), 'configuration %r raises %s: %s in a fresh interpreter (only ValueError - too few steps for the rule - is an expected outcome)' % (s, pk[1], pk[2]))
     for s in sigs:
         if refs[s] != refs2[s]:
             rep.violation('nondeterministic-fresh', dict(sig=list(s)), 'two fresh interpreters disagree on %r' % (s,))
